@@ -77,7 +77,7 @@ def cases(tier, seed):
                     perms = rng.sample(perms, 6)
                 out.append(dict(kind='perm-history', cfg=cfg, route=route, op=op, arity=1, perms=[list(p) for p in perms]))
     # --- perm histories, d = 3
-    for _ in range(30 if tier == 'quick' else 300):
+    for _ in range(30 if tier == 'quick' else 2000):
         cfg = rng.choice([dict(p=3), dict(p=2, r=1), dict(p=2, q=1)])
         n = rng.choice((2, 3, 4))
         ks = rng.sample(range(8), n)
@@ -124,8 +124,8 @@ def cases(tier, seed):
         out.append(dict(kind='flaky-wrapper', cfg=cfg, fail_at=rng.choice((1, 1, 2, 3)), op=rng.choice(BIN_OPS[:11] + UN_OPS[:6]),
                         ka=rng.sample(range(2 ** d), 2), kb=rng.sample(range(2 ** d), 2)))
     # --- mixed histories
-    n = 120 if tier == 'quick' else 1500
-    L = 3 if tier == 'quick' else 4
+    n = 120 if tier == 'quick' else 8000
+    L = 3 if tier == 'quick' else 5
     for i in range(n):
         out.append(dict(kind='mixed-history', cfg=rng.choice(cfgs2 + [dict(p=3), dict(p=2, r=1)]), hseed=rng.randrange(10 ** 9),
                         length=rng.randint(2, L), wrapper=bool(rng.random() < 0.5)))
